@@ -65,6 +65,11 @@ CLAIMED = {
     text='token_bound, token_conservation, token_no_leak, token_progress and cancelled_head_returns_token are proved for every sequence of pool steps and any number of requests; the real jobserver::Client (helper thread, oneshot hand-off, cancellation by dropping the future) is compared with the model at quiescent points, and a real server pinned to 2 CPUs is observed with an enter/leave ledger under failing compiles and killed clients followed by a saturating burst.',
     note='Trusted: Lean kernel, Model/Tokens.lean (tied by h_tokens), quiescence window of the harness. Real thread timing is not modelled (partial).',
     ref='DESIGN.md section 4 C16, Appendix B.5'),
+
+ 'C19': dict(technique='Lean 4 proof (confinement of the textual path arithmetic under explicit hypotheses, kernel-checked escape witness) + differential correspondence with the real join_suffix / std::path inside the sccache-dist crate + lexical-resolution monitor and toolchain-id probe on the real code',
+    text='confined_partial (any build root, any relative remainder without .. components) and stripped_suffix_is_relative are proved; the full statement is false on the code (escape_witness, finding F-C19-a: .. components and unvalidated toolchain ids), which the monitor reproduces on the real functions; the model of Path::join / join_suffix is diffed against the real code on thousands of adversarial path pairs. The sandboxed half (bubblewrap, overlayfs) cannot be run here: partial.',
+    note='Trusted: Lean kernel, Model/Paths.lean (tied by hook H6). Known finding F-C19-a. No bubblewrap/docker in this sandbox.',
+    ref='DESIGN.md section 4 C19, Appendix A.8, B.22'),
 }
 NA_REASON = 'not yet wired into ./check in this round (model and theorems exist under lean/; see DESIGN.md section 0.1)'
 def hooks():
